@@ -73,7 +73,16 @@ fn desc(g: u8, v: u8) -> Option<(Num, bool, Tk)> {
 
 pub const STATIC_GROUP: [u8; 8] = [1, 3, 10, 20, 21, 30, 40, 110];
 pub const EVENT_GROUP: [u8; 8] = [2, 4, 11, 22, 23, 32, 42, 111];
-const PTYPES: [PType; 8] = [PType::Binary, PType::DoubleBit, PType::BinaryOutputStatus, PType::Counter, PType::FrozenCounter, PType::Analog, PType::AnalogOutputStatus, PType::OctetString];
+const PTYPES: [PType; 8] = [
+    PType::Binary,
+    PType::DoubleBit,
+    PType::BinaryOutputStatus,
+    PType::Counter,
+    PType::FrozenCounter,
+    PType::Analog,
+    PType::AnalogOutputStatus,
+    PType::OctetString,
+];
 
 pub fn svars(t: usize) -> &'static [u8] {
     match t {
@@ -98,18 +107,41 @@ pub fn evars(t: usize) -> &'static [u8] {
 pub fn add(db: &mut Database, t: usize, index: u16, sv: u8, ev: u8, class: Option<EventClass>) {
     match t {
         0 => {
-            let s = if sv == 1 { StaticBinaryInputVariation::Group1Var1 } else { StaticBinaryInputVariation::Group1Var2 };
-            let e = [EventBinaryInputVariation::Group2Var1, EventBinaryInputVariation::Group2Var2, EventBinaryInputVariation::Group2Var3][(ev - 1) as usize];
+            let s = if sv == 1 {
+                StaticBinaryInputVariation::Group1Var1
+            } else {
+                StaticBinaryInputVariation::Group1Var2
+            };
+            let e = [
+                EventBinaryInputVariation::Group2Var1,
+                EventBinaryInputVariation::Group2Var2,
+                EventBinaryInputVariation::Group2Var3,
+            ][(ev - 1) as usize];
             db.add(index, class, BinaryInputConfig::new(s, e));
         }
         1 => {
-            let s = if sv == 1 { StaticDoubleBitBinaryInputVariation::Group3Var1 } else { StaticDoubleBitBinaryInputVariation::Group3Var2 };
-            let e = [EventDoubleBitBinaryInputVariation::Group4Var1, EventDoubleBitBinaryInputVariation::Group4Var2, EventDoubleBitBinaryInputVariation::Group4Var3][(ev - 1) as usize];
+            let s = if sv == 1 {
+                StaticDoubleBitBinaryInputVariation::Group3Var1
+            } else {
+                StaticDoubleBitBinaryInputVariation::Group3Var2
+            };
+            let e = [
+                EventDoubleBitBinaryInputVariation::Group4Var1,
+                EventDoubleBitBinaryInputVariation::Group4Var2,
+                EventDoubleBitBinaryInputVariation::Group4Var3,
+            ][(ev - 1) as usize];
             db.add(index, class, DoubleBitBinaryInputConfig::new(s, e));
         }
         2 => {
-            let s = if sv == 1 { StaticBinaryOutputStatusVariation::Group10Var1 } else { StaticBinaryOutputStatusVariation::Group10Var2 };
-            let e = [EventBinaryOutputStatusVariation::Group11Var1, EventBinaryOutputStatusVariation::Group11Var2][(ev - 1) as usize];
+            let s = if sv == 1 {
+                StaticBinaryOutputStatusVariation::Group10Var1
+            } else {
+                StaticBinaryOutputStatusVariation::Group10Var2
+            };
+            let e = [
+                EventBinaryOutputStatusVariation::Group11Var1,
+                EventBinaryOutputStatusVariation::Group11Var2,
+            ][(ev - 1) as usize];
             db.add(index, class, BinaryOutputStatusConfig::new(s, e));
         }
         3 => {
@@ -145,7 +177,14 @@ pub fn add(db: &mut Database, t: usize, index: u16, sv: u8, ev: u8, class: Optio
             db.add(index, class, FrozenCounterConfig::new(s, e, 0));
         }
         5 => {
-            let s = [StaticAnalogInputVariation::Group30Var1, StaticAnalogInputVariation::Group30Var2, StaticAnalogInputVariation::Group30Var3, StaticAnalogInputVariation::Group30Var4, StaticAnalogInputVariation::Group30Var5, StaticAnalogInputVariation::Group30Var6][(sv - 1) as usize];
+            let s = [
+                StaticAnalogInputVariation::Group30Var1,
+                StaticAnalogInputVariation::Group30Var2,
+                StaticAnalogInputVariation::Group30Var3,
+                StaticAnalogInputVariation::Group30Var4,
+                StaticAnalogInputVariation::Group30Var5,
+                StaticAnalogInputVariation::Group30Var6,
+            ][(sv - 1) as usize];
             let e = [
                 EventAnalogInputVariation::Group32Var1,
                 EventAnalogInputVariation::Group32Var2,
@@ -159,7 +198,12 @@ pub fn add(db: &mut Database, t: usize, index: u16, sv: u8, ev: u8, class: Optio
             db.add(index, class, AnalogInputConfig::new(s, e, 0.0));
         }
         6 => {
-            let s = [StaticAnalogOutputStatusVariation::Group40Var1, StaticAnalogOutputStatusVariation::Group40Var2, StaticAnalogOutputStatusVariation::Group40Var3, StaticAnalogOutputStatusVariation::Group40Var4][(sv - 1) as usize];
+            let s = [
+                StaticAnalogOutputStatusVariation::Group40Var1,
+                StaticAnalogOutputStatusVariation::Group40Var2,
+                StaticAnalogOutputStatusVariation::Group40Var3,
+                StaticAnalogOutputStatusVariation::Group40Var4,
+            ][(sv - 1) as usize];
             let e = [
                 EventAnalogOutputStatusVariation::Group42Var1,
                 EventAnalogOutputStatusVariation::Group42Var2,
@@ -261,12 +305,29 @@ pub fn random_src(r: &mut Rng, t: usize, index: u16) -> Src {
 
 pub fn update(sim: &OutSim, s: &Src) {
     let f = Flags::new(s.flags);
-    let tm = if s.sync { Time::synchronized(s.time) } else { Time::unsynchronized(s.time) };
+    let tm = if s.sync {
+        Time::synchronized(s.time)
+    } else {
+        Time::unsynchronized(s.time)
+    };
     let opt = UpdateOptions::new(true, EventMode::Force);
     let i = s.index;
     sim.db(|db| match s.t {
         0 => db.update(i, &BinaryInput::new(s.int != 0, f, tm), opt),
-        1 => db.update(i, &DoubleBitBinaryInput::new([DoubleBit::Intermediate, DoubleBit::DeterminedOff, DoubleBit::DeterminedOn, DoubleBit::Indeterminate][s.int as usize & 3], f, tm), opt),
+        1 => db.update(
+            i,
+            &DoubleBitBinaryInput::new(
+                [
+                    DoubleBit::Intermediate,
+                    DoubleBit::DeterminedOff,
+                    DoubleBit::DeterminedOn,
+                    DoubleBit::Indeterminate,
+                ][s.int as usize & 3],
+                f,
+                tm,
+            ),
+            opt,
+        ),
         2 => db.update(i, &BinaryOutputStatus::new(s.int != 0, f, tm), opt),
         3 => db.update(i, &Counter::new(s.int, f, tm), opt),
         4 => db.update(i, &FrozenCounter::new(s.int, f, tm), opt),
@@ -279,11 +340,20 @@ pub fn update(sim: &OutSim, s: &Src) {
 /// compare what the handler got with what the variation can carry of the source value
 fn judge(rec: &Rec, s: &Src) -> Result<(), (String, String)> {
     let Some((num, has_flags, tk)) = desc(rec.group, rec.var) else {
-        return Err(("unknown_variation".into(), format!("g{}v{} is not a measurement variation of this type", rec.group, rec.var)));
+        return Err((
+            "unknown_variation".into(),
+            format!(
+                "g{}v{} is not a measurement variation of this type",
+                rec.group, rec.var
+            ),
+        ));
     };
     let e = |rule: &str, why: String| Err((rule.to_string(), why));
     if rec.index != s.index {
-        return e("index", format!("index {} delivered, {} expected", rec.index, s.index));
+        return e(
+            "index",
+            format!("index {} delivered, {} expected", rec.index, s.index),
+        );
     }
     // flags as the database holds them (for binary types the value bits are part of the octet)
     let src_flags = match s.t {
@@ -295,18 +365,36 @@ fn judge(rec: &Rec, s: &Src) -> Result<(), (String, String)> {
     match (num, &rec.val) {
         (Num::Bit, RVal::Bool(b)) => {
             if (*b as u32) != (s.int & 1) {
-                return e("value", format!("state {b} delivered, {} written", s.int & 1));
+                return e(
+                    "value",
+                    format!("state {b} delivered, {} written", s.int & 1),
+                );
             }
             if !has_flags && (s.flags & 0x7F) != 0x01 {
-                return e("packed_for_non_online", format!("packed g{}v{} used although the flags are {:#04x}", rec.group, rec.var, s.flags));
+                return e(
+                    "packed_for_non_online",
+                    format!(
+                        "packed g{}v{} used although the flags are {:#04x}",
+                        rec.group, rec.var, s.flags
+                    ),
+                );
             }
         }
         (Num::DBit, RVal::DBit(d)) => {
             if *d as u32 != (s.int & 3) {
-                return e("value", format!("double-bit state {d} delivered, {} written", s.int & 3));
+                return e(
+                    "value",
+                    format!("double-bit state {d} delivered, {} written", s.int & 3),
+                );
             }
             if !has_flags && (s.flags & 0x3F) != 0x01 {
-                return e("packed_for_non_online", format!("packed g{}v{} used although the flags are {:#04x}", rec.group, rec.var, s.flags));
+                return e(
+                    "packed_for_non_online",
+                    format!(
+                        "packed g{}v{} used although the flags are {:#04x}",
+                        rec.group, rec.var, s.flags
+                    ),
+                );
             }
         }
         (Num::U32, RVal::U32(x)) => {
@@ -316,26 +404,52 @@ fn judge(rec: &Rec, s: &Src) -> Result<(), (String, String)> {
         }
         (Num::U16, RVal::U32(x)) => {
             if *x != (s.int & 0xFFFF) {
-                return e("value", format!("16-bit counter {x} delivered, {} written (low 16 bits {})", s.int, s.int & 0xFFFF));
+                return e(
+                    "value",
+                    format!(
+                        "16-bit counter {x} delivered, {} written (low 16 bits {})",
+                        s.int,
+                        s.int & 0xFFFF
+                    ),
+                );
             }
         }
         (Num::I32, RVal::F64(x)) | (Num::I16, RVal::F64(x)) => {
-            let (lo, hi) = if num == Num::I32 { (i32::MIN as f64, i32::MAX as f64) } else { (i16::MIN as f64, i16::MAX as f64) };
+            let (lo, hi) = if num == Num::I32 {
+                (i32::MIN as f64, i32::MAX as f64)
+            } else {
+                (i16::MIN as f64, i16::MAX as f64)
+            };
             let v = s.real;
             if v.is_nan() {
                 over_range = true; // cannot be represented at all: any integer, but flagged
             } else if v < lo {
                 over_range = true;
                 if *x != lo {
-                    return e("saturation", format!("{v:e} delivered as {x} by g{}v{}: expected saturation at {lo}", rec.group, rec.var));
+                    return e(
+                        "saturation",
+                        format!(
+                            "{v:e} delivered as {x} by g{}v{}: expected saturation at {lo}",
+                            rec.group, rec.var
+                        ),
+                    );
                 }
             } else if v > hi {
                 over_range = true;
                 if *x != hi {
-                    return e("saturation", format!("{v:e} delivered as {x} by g{}v{}: expected saturation at {hi}", rec.group, rec.var));
+                    return e(
+                        "saturation",
+                        format!(
+                            "{v:e} delivered as {x} by g{}v{}: expected saturation at {hi}",
+                            rec.group, rec.var
+                        ),
+                    );
                 }
             } else if (*x - v).abs() >= 1.0 || (*x != 0.0 && v != 0.0 && x.signum() != v.signum()) {
-                return e("value", format!("{v:e} delivered as {x} by g{}v{}", rec.group, rec.var));
+                return e(
+                    "value",
+                    format!("{v:e} delivered as {x} by g{}v{}", rec.group, rec.var),
+                );
             }
         }
         (Num::F32, RVal::F64(x)) => {
@@ -343,12 +457,18 @@ fn judge(rec: &Rec, s: &Src) -> Result<(), (String, String)> {
             let m = f32::MAX as f64;
             if v.is_nan() {
                 if !x.is_nan() {
-                    return e("value", format!("NaN delivered as {x} by g{}v{}", rec.group, rec.var));
+                    return e(
+                        "value",
+                        format!("NaN delivered as {x} by g{}v{}", rec.group, rec.var),
+                    );
                 }
             } else if v > m {
                 over_range = true;
                 if *x != m && *x != f64::INFINITY {
-                    return e("saturation", format!("{v:e} delivered as {x:e} by g{}v{}", rec.group, rec.var));
+                    return e(
+                        "saturation",
+                        format!("{v:e} delivered as {x:e} by g{}v{}", rec.group, rec.var),
+                    );
                 }
                 if v.is_infinite() && *x == f64::INFINITY {
                     over_range = false; // infinity is representable
@@ -356,54 +476,121 @@ fn judge(rec: &Rec, s: &Src) -> Result<(), (String, String)> {
             } else if v < -m {
                 over_range = true;
                 if *x != -m && *x != f64::NEG_INFINITY {
-                    return e("saturation", format!("{v:e} delivered as {x:e} by g{}v{}", rec.group, rec.var));
+                    return e(
+                        "saturation",
+                        format!("{v:e} delivered as {x:e} by g{}v{}", rec.group, rec.var),
+                    );
                 }
                 if v.is_infinite() && *x == f64::NEG_INFINITY {
                     over_range = false;
                 }
-            } else if *x != (v as f32) as f64 || (x.is_sign_negative() != v.is_sign_negative() && *x != 0.0) {
-                return e("value", format!("{v:e} delivered as {x:e} by g{}v{}: nearest single is {:e}", rec.group, rec.var, v as f32));
+            } else if *x != (v as f32) as f64
+                || (x.is_sign_negative() != v.is_sign_negative() && *x != 0.0)
+            {
+                return e(
+                    "value",
+                    format!(
+                        "{v:e} delivered as {x:e} by g{}v{}: nearest single is {:e}",
+                        rec.group, rec.var, v as f32
+                    ),
+                );
             }
         }
         (Num::F64, RVal::F64(x)) => {
             if x.to_bits() != s.real.to_bits() && !(x.is_nan() && s.real.is_nan()) {
-                return e("value", format!("{:e} delivered as {x:e} by g{}v{}", s.real, rec.group, rec.var));
+                return e(
+                    "value",
+                    format!(
+                        "{:e} delivered as {x:e} by g{}v{}",
+                        s.real, rec.group, rec.var
+                    ),
+                );
             }
         }
         (Num::Bytes, RVal::Bytes(b)) => {
             if *b != s.bytes {
-                return e("value", format!("octet string {b:?} delivered, {:?} written", s.bytes));
+                return e(
+                    "value",
+                    format!("octet string {b:?} delivered, {:?} written", s.bytes),
+                );
             }
         }
-        (n, v) => return e("value_type", format!("g{}v{} ({n:?}) delivered as {v:?}", rec.group, rec.var)),
+        (n, v) => {
+            return e(
+                "value_type",
+                format!("g{}v{} ({n:?}) delivered as {v:?}", rec.group, rec.var),
+            )
+        }
     }
     // flags
     if num != Num::Bytes {
         if has_flags {
-            let want = if over_range { src_flags | OVER_RANGE } else { src_flags };
+            let want = if over_range {
+                src_flags | OVER_RANGE
+            } else {
+                src_flags
+            };
             if rec.flags != want {
-                let rule = if over_range && rec.flags == src_flags { "over_range_not_flagged" } else { "flags" };
+                let rule = if over_range && rec.flags == src_flags {
+                    "over_range_not_flagged"
+                } else {
+                    "flags"
+                };
                 return e(rule, format!("flags {:#04x} delivered by g{}v{}, expected {want:#04x} (written {:#04x}, value {:e}/{})", rec.flags, rec.group, rec.var, s.flags, s.real, s.int));
             }
         } else if rec.flags & 0x3F != 0x01 {
-            return e("flags_of_flagless", format!("flags {:#04x} delivered for flag-less g{}v{}: expected ONLINE", rec.flags, rec.group, rec.var));
+            return e(
+                "flags_of_flagless",
+                format!(
+                    "flags {:#04x} delivered for flag-less g{}v{}: expected ONLINE",
+                    rec.flags, rec.group, rec.var
+                ),
+            );
         }
     }
     // time
     match (tk, rec.time) {
         (Tk::None, None) => {}
-        (Tk::None, Some(t)) => return e("time", format!("time {t:?} delivered by g{}v{} which carries none", rec.group, rec.var)),
+        (Tk::None, Some(t)) => {
+            return e(
+                "time",
+                format!(
+                    "time {t:?} delivered by g{}v{} which carries none",
+                    rec.group, rec.var
+                ),
+            )
+        }
         (Tk::Abs, Some((_, ms))) => {
             if ms != s.time {
-                return e("time", format!("time {ms} delivered by g{}v{}, {} written", rec.group, rec.var, s.time));
+                return e(
+                    "time",
+                    format!(
+                        "time {ms} delivered by g{}v{}, {} written",
+                        rec.group, rec.var, s.time
+                    ),
+                );
             }
         }
         (Tk::Rel, Some((sync, ms))) => {
             if ms != s.time || sync != s.sync {
-                return e("relative_time", format!("time ({sync}, {ms}) reconstructed from g{}v{}, ({}, {}) written", rec.group, rec.var, s.sync, s.time));
+                return e(
+                    "relative_time",
+                    format!(
+                        "time ({sync}, {ms}) reconstructed from g{}v{}, ({}, {}) written",
+                        rec.group, rec.var, s.sync, s.time
+                    ),
+                );
             }
         }
-        (_, None) => return e("time", format!("no time delivered by g{}v{}, {} written", rec.group, rec.var, s.time)),
+        (_, None) => {
+            return e(
+                "time",
+                format!(
+                    "no time delivered by g{}v{}, {} written",
+                    rec.group, rec.var, s.time
+                ),
+            )
+        }
     }
     Ok(())
 }
@@ -436,13 +623,28 @@ async fn scenario(a: &ShardArgs, idx: u64) {
                 continue;
             }
             used.push(i);
-            layout.push((t, i, *r.pick(svars(t)), *r.pick(evars(t)), 1 + r.below(3) as u8));
+            layout.push((
+                t,
+                i,
+                *r.pick(svars(t)),
+                *r.pick(evars(t)),
+                1 + r.below(3) as u8,
+            ));
         }
     }
     let l2 = layout.clone();
     let o = OutSim::start_with(oc.clone(), |db| {
         for (t, i, sv, ev, c) in &l2 {
-            add(db, *t, *i, *sv, *ev, Some([EventClass::Class1, EventClass::Class2, EventClass::Class3][(*c - 1) as usize]));
+            add(
+                db,
+                *t,
+                *i,
+                *sv,
+                *ev,
+                Some(
+                    [EventClass::Class1, EventClass::Class2, EventClass::Class3][(*c - 1) as usize],
+                ),
+            );
         }
     })
     .await;
@@ -460,7 +662,8 @@ async fn scenario(a: &ShardArgs, idx: u64) {
     pair.run_until(200, |_| false, |_, _| {}).await;
     let _ = pair.m.assocs[0].2.take();
     // pending events per (type, index), in order of update; latest static value
-    let mut pending: std::collections::BTreeMap<(usize, u16), std::collections::VecDeque<Src>> = Default::default();
+    let mut pending: std::collections::BTreeMap<(usize, u16), std::collections::VecDeque<Src>> =
+        Default::default();
     let mut latest: std::collections::BTreeMap<(usize, u16), Src> = Default::default();
     // time line for relative-time events
     let mut t_line: u64 = match r.below(4) {
@@ -479,7 +682,10 @@ async fn scenario(a: &ShardArgs, idx: u64) {
             let time = if r.chance(1, 6) {
                 r.u64() & MAX48
             } else {
-                let d: i64 = *r.pick(&[0i64, 0, 1, 2, 999, 65_534, 65_535, 65_536, 70_000, 131_071, -1, -2, -65_535, -70_000]);
+                let d: i64 = *r.pick(&[
+                    0i64, 0, 1, 2, 999, 65_534, 65_535, 65_536, 70_000, 131_071, -1, -2, -65_535,
+                    -70_000,
+                ]);
                 t_line = (t_line as i64 + d).clamp(0, MAX48 as i64) as u64;
                 t_line
             };
@@ -512,10 +718,35 @@ async fn scenario(a: &ShardArgs, idx: u64) {
             // sometimes only flags and time change (Database::update_flags): the value stays what it was
             let s = match latest.get(&(t, i)) {
                 Some(prev) if t < 7 && r.chance(1, 6) => {
-                    let s2 = Src { flags: s.flags, sync: s.sync, time: s.time, ..prev.clone() };
-                    let ft = [UpdateFlagsType::BinaryInput, UpdateFlagsType::DoubleBitBinaryInput, UpdateFlagsType::BinaryOutputStatus, UpdateFlagsType::Counter, UpdateFlagsType::FrozenCounter, UpdateFlagsType::AnalogInput, UpdateFlagsType::AnalogOutputStatus][t];
-                    let tm = if s2.sync { Time::synchronized(s2.time) } else { Time::unsynchronized(s2.time) };
-                    let info = pair.o.db(|db| db.update_flags(i, ft, Flags::new(s2.flags), Some(tm), UpdateOptions::new(true, EventMode::Force)));
+                    let s2 = Src {
+                        flags: s.flags,
+                        sync: s.sync,
+                        time: s.time,
+                        ..prev.clone()
+                    };
+                    let ft = [
+                        UpdateFlagsType::BinaryInput,
+                        UpdateFlagsType::DoubleBitBinaryInput,
+                        UpdateFlagsType::BinaryOutputStatus,
+                        UpdateFlagsType::Counter,
+                        UpdateFlagsType::FrozenCounter,
+                        UpdateFlagsType::AnalogInput,
+                        UpdateFlagsType::AnalogOutputStatus,
+                    ][t];
+                    let tm = if s2.sync {
+                        Time::synchronized(s2.time)
+                    } else {
+                        Time::unsynchronized(s2.time)
+                    };
+                    let info = pair.o.db(|db| {
+                        db.update_flags(
+                            i,
+                            ft,
+                            Flags::new(s2.flags),
+                            Some(tm),
+                            UpdateOptions::new(true, EventMode::Force),
+                        )
+                    });
                     if !matches!(info, UpdateInfo::Created(_) | UpdateInfo::Overflow { .. }) {
                         violations.push(("update_flags".into(), format!("t{t}"), format!("update_flags on an existing point of type {t} index {i} returned {info:?}")));
                     }
@@ -534,7 +765,12 @@ async fn scenario(a: &ShardArgs, idx: u64) {
         pair.pump();
         // ---- fetch: reads are made one after the other so that every record can be attributed to its request
         // (what, request, explicitly requested event variation (type, var), explicitly requested static variation (type, var))
-        let mut fetches: Vec<(String, Option<UserReq>, Option<(usize, u8)>, Option<(usize, u8)>)> = vec![];
+        let mut fetches: Vec<(
+            String,
+            Option<UserReq>,
+            Option<(usize, u8)>,
+            Option<(usize, u8)>,
+        )> = vec![];
         if unsol {
             fetches.push(("unsolicited".into(), None, None, None));
         } else {
@@ -549,12 +785,27 @@ async fn scenario(a: &ShardArgs, idx: u64) {
                     1 => UserReq::ReadHeaders(vec![(3, EVENT_GROUP[t], v, n.min(255), 0)]),
                     _ => UserReq::ReadHeaders(vec![(4, EVENT_GROUP[t], v, n, 0)]),
                 };
-                fetches.push((format!("events g{}v{v} kind{kind}", EVENT_GROUP[t]), Some(rq), if v == 0 { None } else { Some((t, v)) }, None));
+                fetches.push((
+                    format!("events g{}v{v} kind{kind}", EVENT_GROUP[t]),
+                    Some(rq),
+                    if v == 0 { None } else { Some((t, v)) },
+                    None,
+                ));
             }
-            fetches.push(("events by class".into(), Some(UserReq::ReadClasses([false, true, true, true])), None, None));
+            fetches.push((
+                "events by class".into(),
+                Some(UserReq::ReadClasses([false, true, true, true])),
+                None,
+                None,
+            ));
         }
         match r.below(5) {
-            0 => fetches.push(("class0".into(), Some(UserReq::ReadClasses([true, false, false, false])), None, None)),
+            0 => fetches.push((
+                "class0".into(),
+                Some(UserReq::ReadClasses([true, false, false, false])),
+                None,
+                None,
+            )),
             1 | 2 | 3 => {
                 let t = r.usize_below(7);
                 let v = if r.chance(1, 4) { 0 } else { *r.pick(svars(t)) };
@@ -564,7 +815,12 @@ async fn scenario(a: &ShardArgs, idx: u64) {
                     1 => UserReq::ReadHeaders(vec![(1, STATIC_GROUP[t], v, 0, 255)]),
                     _ => UserReq::ReadHeaders(vec![(2, STATIC_GROUP[t], v, 0, 65535)]),
                 };
-                fetches.push((format!("static g{}v{v} kind{kind}", STATIC_GROUP[t]), Some(rq), None, if v == 0 { None } else { Some((t, v)) }));
+                fetches.push((
+                    format!("static g{}v{v} kind{kind}", STATIC_GROUP[t]),
+                    Some(rq),
+                    None,
+                    if v == 0 { None } else { Some((t, v)) },
+                ));
             }
             _ => {}
         }
@@ -578,7 +834,13 @@ async fn scenario(a: &ShardArgs, idx: u64) {
                     let id = pair.m.submit(0, rq);
                     settle().await;
                     pair.pump();
-                    let fin = pair.run_until(120_000, |pr| pr.m.result_of(id).is_some() && pr.in_flight.is_empty(), |_, _| {}).await;
+                    let fin = pair
+                        .run_until(
+                            120_000,
+                            |pr| pr.m.result_of(id).is_some() && pr.in_flight.is_empty(),
+                            |_, _| {},
+                        )
+                        .await;
                     if !fin {
                         out::count("harness_read_not_finished", 1);
                     }
@@ -586,7 +848,11 @@ async fn scenario(a: &ShardArgs, idx: u64) {
                     hist.push(format!("round {round}: read {what} -> {res:?}"));
                     if let Some(txt) = res {
                         if !txt.starts_with("Ok") {
-                            violations.push(("read_failed".into(), what.split(' ').next().unwrap_or("").to_string(), format!("read {what} failed: {txt}")));
+                            violations.push((
+                                "read_failed".into(),
+                                what.split(' ').next().unwrap_or("").to_string(),
+                                format!("read {what} failed: {txt}"),
+                            ));
                         }
                     }
                 }
@@ -596,7 +862,11 @@ async fn scenario(a: &ShardArgs, idx: u64) {
             for it in items {
                 let Item::M(rec) = it else { continue };
                 let Some(t) = PTYPES.iter().position(|p| *p == rec.ptype) else {
-                    violations.push(("unexpected_type".into(), format!("{:?}", rec.ptype), format!("handler received {rec:?}")));
+                    violations.push((
+                        "unexpected_type".into(),
+                        format!("{:?}", rec.ptype),
+                        format!("handler received {rec:?}"),
+                    ));
                     continue;
                 };
                 out::eval(1);
@@ -604,7 +874,11 @@ async fn scenario(a: &ShardArgs, idx: u64) {
                 let which = if rec.is_event { "event" } else { "static" };
                 if rec.is_event {
                     if rec.group != EVENT_GROUP[t] {
-                        violations.push(("group".into(), format!("t{t}"), format!("event of type {t} delivered as g{}v{}", rec.group, rec.var)));
+                        violations.push((
+                            "group".into(),
+                            format!("t{t}"),
+                            format!("event of type {t} delivered as g{}v{}", rec.group, rec.var),
+                        ));
                         continue;
                     }
                     let Some(src) = pending.get_mut(&key).and_then(|q| q.pop_front()) else {
@@ -614,7 +888,11 @@ async fn scenario(a: &ShardArgs, idx: u64) {
                     // the variation asked for explicitly, else the configured event variation (octet strings: by length)
                     let ev = match want_ev {
                         Some((tt, v)) if tt == t => v,
-                        _ => layout.iter().find(|l| l.0 == t && l.1 == rec.index).map(|l| l.3).unwrap_or(0),
+                        _ => layout
+                            .iter()
+                            .find(|l| l.0 == t && l.1 == rec.index)
+                            .map(|l| l.3)
+                            .unwrap_or(0),
                     };
                     if t != 7 && rec.var != ev {
                         violations.push(("event_variation".into(), format!("g{}v{}", rec.group, rec.var), format!("event delivered as g{}v{} by read '{what}', expected variation {ev}", rec.group, rec.var)));
@@ -629,17 +907,32 @@ async fn scenario(a: &ShardArgs, idx: u64) {
                                 out::count("relative_time_reconstructed_ok", 1);
                             }
                         }
-                        Err((rule, why)) => violations.push((rule, format!("{which}|g{}v{}", rec.group, rec.var), format!("{why}; source {src:?}; delivered {rec:?}"))),
+                        Err((rule, why)) => violations.push((
+                            rule,
+                            format!("{which}|g{}v{}", rec.group, rec.var),
+                            format!("{why}; source {src:?}; delivered {rec:?}"),
+                        )),
                     }
                 } else {
                     if rec.group != STATIC_GROUP[t] {
-                        violations.push(("group".into(), format!("t{t}"), format!("static value of type {t} delivered as g{}v{}", rec.group, rec.var)));
+                        violations.push((
+                            "group".into(),
+                            format!("t{t}"),
+                            format!(
+                                "static value of type {t} delivered as g{}v{}",
+                                rec.group, rec.var
+                            ),
+                        ));
                         continue;
                     }
                     // variation: asked for explicitly, else configured; a packed format is promoted to the flagged one for points that are not plainly ONLINE
                     let sv = match want_sv {
                         Some((tt, v)) if tt == t => v,
-                        _ => layout.iter().find(|l| l.0 == t && l.1 == rec.index).map(|l| l.2).unwrap_or(0),
+                        _ => layout
+                            .iter()
+                            .find(|l| l.0 == t && l.1 == rec.index)
+                            .map(|l| l.2)
+                            .unwrap_or(0),
                     };
                     let promoted = t < 3 && sv == 1 && rec.var == 2;
                     if t != 7 && rec.var != sv && !promoted {
@@ -657,7 +950,11 @@ async fn scenario(a: &ShardArgs, idx: u64) {
                             out::count("static_values_ok", 1);
                             out::count(&format!("ok_g{}v{}", rec.group, rec.var), 1);
                         }
-                        Err((rule, why)) => violations.push((rule, format!("{which}|g{}v{}", rec.group, rec.var), format!("{why}; source {src:?}; delivered {rec:?}"))),
+                        Err((rule, why)) => violations.push((
+                            rule,
+                            format!("{which}|g{}v{}", rec.group, rec.var),
+                            format!("{why}; source {src:?}; delivered {rec:?}"),
+                        )),
                     }
                 }
             }
@@ -665,7 +962,16 @@ async fn scenario(a: &ShardArgs, idx: u64) {
         // every forced event was delivered
         for (k, q) in pending.iter() {
             if !q.is_empty() {
-                violations.push(("event_lost".into(), format!("t{}", k.0), format!("{} update(s) of type {} index {} produced no delivered event", q.len(), k.0, k.1)));
+                violations.push((
+                    "event_lost".into(),
+                    format!("t{}", k.0),
+                    format!(
+                        "{} update(s) of type {} index {} produced no delivered event",
+                        q.len(),
+                        k.0,
+                        k.1
+                    ),
+                ));
             }
         }
         pending.clear();
@@ -677,11 +983,49 @@ async fn scenario(a: &ShardArgs, idx: u64) {
     violations.sort();
     violations.dedup_by(|a, b| a.0 == b.0 && a.1 == b.1);
     for (rule, sig, why) in &violations {
-        out::violation(P, &format!("C10.{rule}"), sig, J::obj(vec![("why", J::s(why.clone())), ("history", J::arr(hist.iter().cloned()))]), J::obj(vec![("check", J::s("c10")), ("seed", J::U(a.seed)), ("shard", J::U(a.shard)), ("nshards", J::U(a.nshards)), ("scenario", J::U(idx))]));
+        out::violation(
+            P,
+            &format!("C10.{rule}"),
+            sig,
+            J::obj(vec![
+                ("why", J::s(why.clone())),
+                ("history", J::arr(hist.iter().cloned())),
+            ]),
+            J::obj(vec![
+                ("check", J::s("c10")),
+                ("seed", J::U(a.seed)),
+                ("shard", J::U(a.shard)),
+                ("nshards", J::U(a.nshards)),
+                ("scenario", J::U(idx)),
+            ]),
+        );
     }
-    out::distinct(&format!("unsol{}/tx{}/n{}", unsol as u8, oc.sol_tx, layout.len()));
+    out::distinct(&format!(
+        "unsol{}/tx{}/n{}",
+        unsol as u8,
+        oc.sol_tx,
+        layout.len()
+    ));
     for p in crate::verif::util::take_panics() {
-        out::violation(P, "C10.panic", &crate::verif::util::norm_location(&p.location), J::obj(vec![("why", J::s(format!("panic {} at {}", p.message, p.location))), ("history", J::arr(hist.iter().cloned()))]), J::obj(vec![("check", J::s("c10")), ("seed", J::U(a.seed)), ("shard", J::U(a.shard)), ("nshards", J::U(a.nshards)), ("scenario", J::U(idx))]));
+        out::violation(
+            P,
+            "C10.panic",
+            &crate::verif::util::norm_location(&p.location),
+            J::obj(vec![
+                (
+                    "why",
+                    J::s(format!("panic {} at {}", p.message, p.location)),
+                ),
+                ("history", J::arr(hist.iter().cloned())),
+            ]),
+            J::obj(vec![
+                ("check", J::s("c10")),
+                ("seed", J::U(a.seed)),
+                ("shard", J::U(a.shard)),
+                ("nshards", J::U(a.nshards)),
+                ("scenario", J::U(idx)),
+            ]),
+        );
     }
     if a.replay.is_some() {
         for h in &hist {
@@ -694,7 +1038,10 @@ async fn scenario(a: &ShardArgs, idx: u64) {
 }
 
 pub fn run(a: &ShardArgs) -> Result<(), String> {
-    let only: Option<u64> = a.replay.as_ref().and_then(|p| super::common::replay_scenario(p));
+    let only: Option<u64> = a
+        .replay
+        .as_ref()
+        .and_then(|p| super::common::replay_scenario(p));
     let n = a.n(12000);
     for idx in 0..n {
         if idx % a.nshards != a.shard {
